@@ -43,6 +43,12 @@ def build(kinds, keys):
             b = M.Preamble("pre", n - i, "raw" + str(i))
         elif kd == "E":
             b = M.Entry("article", k, [M.Field("t", "x")], n - i, "raw" + str(i))
+        elif kd == "J":
+            b = M.ImplicitComment("", n - i, "raw" + str(i))        # a comment whose text is empty is still a comment
+        elif kd == "Y":
+            b = M.ExplicitComment("", n - i, "raw" + str(i))
+        elif kd == "Q":
+            b = M.ImplicitComment("q", 0, "rawq")                   # value-equal to every other Q block (Block.__eq__)
         elif kd == "I":
             b = M.ImplicitComment("ic", n - i, "raw" + str(i))
         elif kd == "X":
@@ -210,7 +216,16 @@ def main():
                   "orders": sorted(ORDERS), "comment modes": [True, False]}
     chk.assumptions = ["block_type_order ranges over the five listed orders (full, reversed, single, empty, partial)", "keys are one character; empty keys occur through key-less blocks"]
     chk.expected_vacuity = ["reordered", "duplicate-wrapper-sorted"]
-    for s in seqs:
+    # comments with empty text, and comments that compare equal to one another (a comment is a comment by type, and the
+    # comment run above a block is found by position, not by value)
+    extra = []
+    for n in range(2, 5):
+        for kinds in itertools.product("JYQES", repeat=n):
+            s = "".join(kinds)
+            if (("J" in s or "Y" in s) and n <= 3 and sum(c in "ES" for c in s) >= 1) or (s.count("Q") >= 2 and sum(c in "ES" for c in s) >= 1 and "J" not in s and "Y" not in s):
+                extra.append(s)
+    chk.bounds["empty / value-equal comments"] = f"{len(extra)} sequences of length 2..4 over empty-text implicit/explicit comments, value-equal comments, Entry, String"
+    for s in seqs + extra:
         chk.add_task(f"seq-{s}", task, kinds=s)
     # libraries in which the first block was removed again (a duplicate wrapper may outlive its original)
     rem = [s for s in seqs if 2 <= len(s) <= 3 and (s.count("E") >= 2 or s.count("S") >= 2)]
